@@ -118,6 +118,9 @@ func (m *Machine) callSSA(caller *Frame, fn *ssa.Function, args []Value, env []V
 		return in(m, caller, fn, args)
 	}
 	if fn.Blocks == nil {
+		m.p.ensureBody(fn) // another worker may be building the package right now: wait for it
+	}
+	if fn.Blocks == nil {
 		panic(unsupported("function without body and without intrinsic: " + fn.String()))
 	}
 	m.depth++
